@@ -29,7 +29,7 @@ INNER = ["size", "size", "hardlinks", "uid", "length(name)", "line_count"]
 
 
 def examples(tier):
-    return 1100 if tier == "quick" else 15000
+    return 5600 if tier == "quick" else 80000
 
 
 @st.composite
